@@ -11,3 +11,4 @@ pub mod explorer;
 pub mod c07;
 pub mod c07live;
 pub mod c17sctp;
+pub mod c19;
